@@ -202,6 +202,21 @@ theorem isSequence_of_indexError {d : Val} {i : Nat} (h : d.getItem (.i i) = .in
   cases d <;> simp [Val.getItem] at h ⊢ <;> simp [Val.isSequence]
   all_goals (split at h <;> simp at h)
 
+theorem getItem_found_of_lt' {d : Val} {i : Nat} (hs : d.isSequence = true) (hi : i < d.len) :
+    ∃ v, d.getItem (.i i) = .found v := by
+  cases d <;> simp [Val.isSequence] at hs
+  · rename_i s
+    simp only [Val.len] at hi
+    have : i < s.toList.length := by rw [String.length_toList]; exact hi
+    simp only [Val.getItem]
+    rw [List.getElem?_eq_getElem this]
+    exact ⟨_, rfl⟩
+  · rename_i xs
+    simp only [Val.len] at hi
+    simp only [Val.getItem]
+    rw [List.getElem?_eq_getElem hi]
+    exact ⟨_, rfl⟩
+
 theorem fieldFromDict_grows (cfg : LoadCfg) (p : Path) (d : Val) (req : List String) (k id : String)
     (checked hnf : Bool) (st : LState) : Grows st (fieldFromDict cfg p d req k id checked hnf st).1 := by
   unfold fieldFromDict
